@@ -255,11 +255,57 @@ class Evaluator(object):
                 return base[_hashable(idx)]
             except Exception as e:
                 raise CannotEval("%s: %s" % (norm(expr), e))
-        if isinstance(expr, (ast.ListComp, ast.GeneratorExp, ast.SetComp, ast.DictComp)):
+        if isinstance(expr, (ast.ListComp, ast.GeneratorExp, ast.SetComp)):
+            # a comprehension over statically known sequences (constant tables, range()) is unrolled; anything else stays unknown
+            try:
+                out = []
+                self._unroll(expr, 0, dict(env or {}), scope, before, depth, out)
+                return out
+            except CannotEval:
+                return self._dyn(expr)
+        if isinstance(expr, ast.DictComp):
             return self._dyn(expr)
         if isinstance(expr, ast.IfExp):
             return self._dyn(expr)
         return self._dyn(expr)
+
+    def _unroll(self, comp, gi, env, scope, before, depth, out):
+        if len(out) > 20000:
+            raise CannotEval("comprehension too large")
+        if gi == len(comp.generators):
+            v = self.eval(comp.elt, scope, env, before, depth + 1)
+            if isinstance(v, Dyn):
+                raise CannotEval("element not evaluable")
+            out.append(v)
+            return
+        g = comp.generators[gi]
+        if g.is_async:
+            raise CannotEval("async comprehension")
+        it = self.eval(g.iter, scope, env, before, depth + 1)
+        if isinstance(it, dict):
+            it = list(it.keys())
+        if isinstance(it, Dyn) or not isinstance(it, (list, tuple)):
+            raise CannotEval("source not a known sequence")
+        for elem in it:
+            if isinstance(elem, Dyn):
+                raise CannotEval("source element unknown")
+            env2 = dict(env)
+            if isinstance(g.target, ast.Name):
+                env2[g.target.id] = elem
+            elif isinstance(g.target, (ast.Tuple, ast.List)) and isinstance(elem, (list, tuple)) and len(elem) == len(g.target.elts) \
+                    and all(isinstance(t_, ast.Name) for t_ in g.target.elts):
+                for t_, v_ in zip(g.target.elts, elem):
+                    env2[t_.id] = v_
+            else:
+                raise CannotEval("unsupported comprehension target")
+            keep = True
+            for c in g.ifs:
+                cv = self.eval(c, scope, env2, before, depth + 1)
+                if isinstance(cv, Dyn):
+                    raise CannotEval("condition not evaluable")
+                keep = keep and bool(cv)
+            if keep:
+                self._unroll(comp, gi + 1, env2, scope, before, depth, out)
 
     def _dyn(self, expr):
         if self.allow_dyn:
